@@ -347,8 +347,12 @@ func extractDecode(fset *token.FileSet, fd *ast.FuncDecl, m *Msg, idx map[string
 	var curStmt ast.Stmt
 	odd := func(s string) {
 		m.Oddities = append(m.Oddities, "Decode"+name+": "+s)
-		if cur == "" || curStmt == nil {
+		if curStmt == nil {
 			return
+		}
+		if cur == "" {
+			cur = "<mandatory>" // a hand-written statement in the mandatory part: keyed separately
+			defer func() { cur = "" }()
 		}
 		// which other elements does the hand-written statement mention?
 		txt := exprString(fset, curStmt)
@@ -363,7 +367,12 @@ func extractDecode(fset *token.FileSet, fd *ast.FuncDecl, m *Msg, idx map[string
 			}
 			m.Deps[cur] = append(m.Deps[cur], d)
 		}
+		var slotNames []string
 		for sn := range idx {
+			slotNames = append(slotNames, sn)
+		}
+		sort.Strings(slotNames)
+		for _, sn := range slotNames {
 			if sn != cur && (strings.Contains(txt, "a."+sn+".") || strings.Contains(txt, "a."+sn+" ") || strings.Contains(txt, "a."+sn+")") || strings.Contains(txt, "a."+sn+",")) {
 				add(sn)
 			}
@@ -522,11 +531,39 @@ func extractDecode(fset *token.FileSet, fd *ast.FuncDecl, m *Msg, idx map[string
 }
 
 func extractEncode(fset *token.FileSet, fd *ast.FuncDecl, m *Msg, idx map[string]int) {
-	odd := func(s string) { m.Oddities = append(m.Oddities, fd.Name.Name+": "+s) }
+	var curStmt ast.Stmt
+	odd := func(s string) {
+		m.Oddities = append(m.Oddities, fd.Name.Name+": "+s)
+		if curStmt == nil {
+			return
+		}
+		// the elements a hand-written encoder statement mentions
+		txt := exprString(fset, curStmt)
+		var names []string
+		for sn := range idx {
+			names = append(names, sn)
+		}
+		sort.Strings(names)
+		for _, sn := range names {
+			if strings.Contains(txt, "a."+sn+".") || strings.Contains(txt, "a."+sn+" ") || strings.Contains(txt, "a."+sn+")") || strings.Contains(txt, "a."+sn+",") {
+				if m.Deps == nil {
+					m.Deps = map[string][]string{}
+				}
+				dup := false
+				for _, x := range m.Deps["<encode>"] {
+					dup = dup || x == sn
+				}
+				if !dup {
+					m.Deps["<encode>"] = append(m.Deps["<encode>"], sn)
+				}
+			}
+		}
+	}
 	order := []string{}
 	var handle func(stmts []ast.Stmt, guardSlot string)
 	handle = func(stmts []ast.Stmt, guardSlot string) {
 		for _, st := range stmts {
+			curStmt = st
 			if tgt, ok, returns := rwTarget(fset, st, "Write"); ok {
 				sn := slotOf(tgt)
 				i, known := idx[sn]
